@@ -293,9 +293,11 @@ impl FilePersist {
 
     /// Replay WAL entries into shard buffers. Returns the number of entries replayed.
     fn replay_wal(&self) -> StorageResult<usize> {
-        let wal = self.wal.lock();
+        let mut wal = self.wal.lock();
         let entries = wal.read_all()?;
         let count = entries.len();
+        let damaged = wal.is_damaged()?;
+        let mut kept: Vec<wal::WalEntry> = Vec::with_capacity(entries.len());
 
         let mut shards = self.shards.write();
 
@@ -320,6 +322,7 @@ impl FilePersist {
             if flushed_times[&entry.shard].contains(&entry.update.time) {
                 continue;
             }
+            kept.push(entry.clone());
             let state = shards
                 .entry(entry.shard.clone())
                 .or_insert_with(|| ShardState {
@@ -329,7 +332,13 @@ impl FilePersist {
             state.buffer.push(entry.update);
         }
 
-        Ok(count)
+        // Leave a WAL that later appends can extend safely: no torn tail, no corrupt
+        // line, no entry that a batch already holds.
+        if damaged || kept.len() != count {
+            wal.rewrite(&kept)?;
+        }
+
+        Ok(kept.len())
     }
 
     /// Save shard metadata to disk using atomic write-to-temp+rename.
